@@ -11,7 +11,7 @@ def case(adef, syntax="json", profile="", device_name="Dev", **extra):
     return c
 
 
-def pick_syntax(g, weights=(6, 3, 1, 1)):
+def pick_syntax(g, weights=(4, 4, 1, 1)):
     return g.r.choices(SYNTAXES, weights=weights)[0]
 
 
@@ -265,11 +265,19 @@ def _prof_layout(g, n):
             o["byte_order"] = g.pick(["LE", "BE"])
         if g.chance(0.25):
             o["allow_bit_overlap"] = g.chance(0.8)
+        if 0.35 <= mode < 0.7 and g.chance(0.5):
+            # overlap is the only possible defect here: the whole 3 x 3 matrix of the two overlap settings (each absent /
+            # false / true) - only ALLOW_BIT_OVERLAP = true permits it, on registers and commands alike
+            for key in ("allow_bit_overlap", "allow_address_overlap"):
+                o.pop(key, None)
+                v = g.pick([None, False, True, True])
+                if v is not None:
+                    o[key] = v
         if mode >= 0.8 and force_overlap:
             o["allow_bit_overlap"] = True
         if g.chance(0.3):
             o["bit_order"] = g.pick(["LSB0", "MSB0"])
-        out.append(case({"config": cfg, "objects": [o]}, pick_syntax(g, (6, 3, 1, 1)), "layout"))
+        out.append(case({"config": cfg, "objects": [o]}, pick_syntax(g, (4, 4, 1, 1)), "layout"))
     return out
 
 
@@ -600,7 +608,7 @@ def _prof_reset(g, tier):
                     for k in highs:
                         good = good_reset(g, size, bo, bito, form)
                         bad = flip_high_bit(g, size, bo, bito, form, good, k)
-                        syn = "dsl" if (form == "int" and bad >= 2 ** 63) else pick_syntax(g, (6, 3, 1, 1))
+                        syn = "dsl" if (form == "int" and bad >= 2 ** 63) else pick_syntax(g, (4, 4, 1, 1))
                         out.append(case({"config": {"register_address_type": "u8"},
                                          "objects": [reset_register(g, "R", 1, size, bo, bito, form, bad)]}, syn, "reset_bad_bit"))
                     if form == "array" and (thorough or g.chance(0.5)):
@@ -737,10 +745,60 @@ def cases_for(prop, tier, seed):
 
 # ------------------------------------------------------------------------------------ addresses (C12, C13, C04)
 
+def allowed_pair_adef(g):
+    """Exactly one shared address, between two objects of one kind, each of which gets (or does not get) its permission
+    in one of the ways there are: its own flag, the flag on a ref's override (target without it), a ref inheriting its
+    target's flag. The pass must accept iff both sides have it."""
+    kind = g.pick(["register", "register", "command"])
+    def obj(name, addr, allow):
+        o = {"kind": kind, "name": name, "address": str(addr)}
+        if kind == "register":
+            o.update({"size_bits": 8, "fields": []})
+        else:
+            o["basic"] = False
+        if allow is not None:
+            o["allow_address_overlap"] = allow
+        return o
+    def side(tag, addr):
+        """objects realising one side at `addr`, and whether that side permits overlap"""
+        way = g.pick(["own", "own", "ref_override", "ref_override", "ref_inherit", "none", "own_false", "ref_none"])
+        if way == "own":
+            return [obj("A" + tag, addr, True)], True
+        if way == "own_false":
+            return [obj("A" + tag, addr, False)], False
+        if way == "none":
+            return [obj("A" + tag, addr, None)], False
+        far = 100 + (0 if tag == "x" else 50)
+        if way == "ref_override":
+            return [obj("T" + tag, far, g.pick([None, False])),
+                    {"kind": "ref", "name": "R" + tag, "target": "T" + tag, "override": {"kind": kind, "address": str(addr), "allow_address_overlap": True}}], True
+        if way == "ref_inherit":
+            return [obj("T" + tag, far, True),
+                    {"kind": "ref", "name": "R" + tag, "target": "T" + tag, "override": {"kind": kind, "address": str(addr)}}], True
+        return [obj("T" + tag, far, None),
+                {"kind": "ref", "name": "R" + tag, "target": "T" + tag, "override": {"kind": kind, "address": str(addr)}}], False
+    addr = g.r.randint(0, 40)
+    a, pa = side("x", addr)
+    b, pb = side("y", addr)
+    objs = a + b
+    if g.chance(0.5):
+        g.r.shuffle(objs)
+    if g.chance(0.3):
+        objs = [{"kind": "block", "name": "Blk", "address_offset": str(g.r.randint(0, 5)), "objects": objs}]
+    cfg = {"register_address_type": "u8", "command_address_type": "u8", "default_byte_order": "LE"}
+    return {"config": cfg, "objects": objs}
+
+
 def prof_collide(g, n):
     out = []
     for i in range(n):
         g.reset_names()
+        if i % 8 == 7:
+            adef = allowed_pair_adef(g)
+            if g.chance(0.4):
+                adef["item_order"] = "rev"
+            out.append(case(adef, pick_syntax(g, (4, 4, 1, 1)), "collide"))
+            continue
         objs, _ = build_tree(g, depth=2, n_top=(2, 5), collide=True, repeat_p=0.4, ref_p=0.25, block_p=0.3,
                              field_kw={"conv_p": 0.0}, small_sizes=True, block_ref_p=0.1)
         # ref overrides may allow overlap themselves
@@ -762,7 +820,7 @@ def prof_collide(g, n):
         adef = {"config": cfg, "objects": objs}
         if g.chance(0.4):
             adef["item_order"] = "rev"
-        out.append(case(adef, pick_syntax(g, (7, 2, 1, 1)), "collide"))
+        out.append(case(adef, pick_syntax(g, (4, 4, 1, 1)), "collide"))
     return out
 
 
@@ -842,7 +900,7 @@ def prof_addrtype(g, n):
                 objs.append(o2)
         if g.chance(0.1):
             del cfg[tkey[kind]]
-        out.append(case({"config": cfg, "objects": objs}, pick_syntax(g, (7, 2, 1, 1)), "addrtype"))
+        out.append(case({"config": cfg, "objects": objs}, pick_syntax(g, (4, 4, 1, 1)), "addrtype"))
     return out
 
 def prof_pow2(g, n, kinds=("register", "register", "command")):
@@ -894,7 +952,7 @@ def prof_pow2(g, n, kinds=("register", "register", "command")):
         if g.chance(0.3):
             objs.append(leaf(g.r.randint(0, 5), nm="Zero"))
         cfg = {"register_address_type": t, "command_address_type": t, "buffer_address_type": t}
-        out.append(case({"config": cfg, "objects": objs}, pick_syntax(g, (7, 2, 1, 1)), "addrtype"))
+        out.append(case({"config": cfg, "objects": objs}, pick_syntax(g, (4, 4, 1, 1)), "addrtype"))
     return out
 
 
